@@ -197,6 +197,15 @@ def c02(ck):
                         ses.append("%d 16 1 d%d b:%s;b:09;b:0d" % (cap, k, gen.hx(pre)))
 
     ses += tab_sweep_sessions(declgen, sets)
+    # a sink that takes only a few bytes per write call: long echoes (recall, redraw after Cli::write / set_prompt, completion) are cut
+    # into pieces by the sink, and every byte must still arrive
+    for _ in range(300 if thorough else 60):
+        words = [rng.choice(["\u0434\u0430\u0442\u0447\u0438\u043a\u0430\u043c", "ab \u4f50\u4f57\u4f50", "\U0001f600\U0001f600x", "echo \u00e9\u20ac\u00e9\u20ac"]) for _ in range(2)]
+        ops = ["y:%d" % rng.choice([1, 2, 3, 5, 8])]
+        for w in words:
+            ops += ["b:" + gen.hx(w.encode("utf-8")), "b:0d"]
+        ops += ["b:1b5b41", "b:1b5b44", "w:s6f6b", "p:%d" % rng.randrange(6), "b:1b5b41", "b:1b5b42", "b:0d"]
+        ses.append("40 64 %d raw %s" % (rng.randrange(6), ";".join(ops)))
     # every boundary scalar deleted from the MIDDLE of a line (Backspace with text after it) and moved over, then submitted and recalled:
     # a width taken from the lead byte by a slightly wrong table leaves a stray octet behind
     for cp in sorted(set(gen.BOUNDARY_CPS + [0x800, 0x801, 0xE01, 0xFFF, 0x1000, 0xD7FF, 0xE000, 0xFFFD, 0xFFFF, 0x10000, 0x3FFFF, 0x40000, 0xFFFFF, 0x100000, 0x10FFFF])):
@@ -440,6 +449,10 @@ def c13(ck):
     # texts and line counts beyond 255: one write of 300 bytes with line feeds after position 256, 300 short lines, a 300-byte line per call
     cases += ["s:" + gen.hx(b"a" * 256 + b"\n" + b"b" * 10 + b"\n"), "s:" + gen.hx(b"x\n" * 300), "l:" + gen.hx(b"y" * 300) + ";s:" + gen.hx("\u00e9".encode() * 200),
               "s:" + gen.hx(b"a" * 255) + ";s:0a", "u:" + gen.hx(b"z" * 257 + b"\n" + b"z")]
+    # every line length 0..80 before a line feed, in one call and with the line feed in a call of its own, ASCII and multi-byte: a scratch
+    # buffer of some fixed size shows at one or two lengths only
+    for n_ in range(0, 81):
+        cases += ["s:" + gen.hx(b"a" * n_ + b"\nb"), "s:" + gen.hx(b"a" * n_) + ";s:0a;s:62", "s:" + gen.hx("\u00e9".encode() * (n_ // 2) + b"x" * (n_ % 2) + b"\n" + b"c" * n_ + b"\n")]
     cases = sorted(set(cases))
     spec = dict(zip(cases, drv_run("wrspec", cases)))
     # the property is about what the terminal shows (own lines, fresh line for the prompt, line and cursor redisplayed): the frame the
@@ -890,6 +903,31 @@ def c17(ck):
                 return "the error line for the undeclared short option does not name it (-c with the scalar encoded as typed, bytes %s): sink %s" % (want[case], sinkb(st["sink"]))
         return None
 
+    # the scalar as the value of a `char`-typed positional and option of a derived command (FromArgument for char): accepted, whatever its
+    # encoded length
+    kc = next((k for k, s_ in enumerate(sets) if s_["kind"] == "enum" and any(c_["variant"] == "Sep" for c_ in s_["enum"]["cmds"])), None)
+    if kc is not None:
+        cses = []
+        for c in gen.BOUNDARY_CPS + [0x41, 0x7A, 0x30] + [gen.rand_cp(rng, 0) for _ in range(100 if thorough else 30)]:
+            if c in (0x20, 0x7F, 0x22, 0x5C, 0x2D) or 0xD800 <= c <= 0xDFFF or c < 0x20:
+                continue
+            cses.append(lines_to_session(kc, ["sep " + chr(c), "sep x --alt " + chr(c), "sep " + chr(c) + chr(c)], cap=60))
+
+        def oracle_chararg(case, io):
+            es = enter_steps(case, io)
+            if es is None:
+                return "crash / malformed output: " + io[:300]
+            for i_, (line, st) in enumerate(es):
+                if st is None:
+                    return "missing step"
+                if i_ < 2 and st["calls"] == "-":
+                    return "`%s`: a single scalar given to a char argument was rejected: %s" % (line, sinkb(st["sink"])[:120])
+                if i_ == 2 and st["calls"] != "-":
+                    return "`%s`: two scalars were accepted as one char" % line
+            return None
+
+        ck.run_family(Family("derived-char-argument", "ses", cses, oracle=oracle_chararg, nontrivial=lambda c, o: True,
+                             project=lambda o: [(x["r"], x["calls"], sinkb(x["sink"])) for x in (parse_steps(o) or [])] or o))
     ck.run_family(Family("derived-unexpected-short-option", "ses", dses, oracle=oracle_unexp, nontrivial=lambda c, o: True,
                          project=lambda o: [(x["r"], x["calls"], sinkb(x["sink"])) for x in (parse_steps(o) or [])] or o))
     return ck.finish(trusted=TB_COMMON + ["Python's and Rust's own UTF-8 encoders/decoders as independent oracles"],
@@ -930,6 +968,12 @@ def c06(ck):
                                    "b:58", "b:" + gen.hx(gen.KEYS["bs"]), "w:s6f", "p:%d" % rng.randrange(4)]))
         ses.append("%d %d %d raw %s" % (rng.choice([8, 16, 32]), rng.choice([0, 8, 16, 32, 64]), rng.randrange(4), ";".join(ops)))
     ses += gen.long_sessions(rng, 8 if thorough else 3)        # a row of more than 255 columns, the cursor taken back over column 256
+    # prompts of the same BYTE length and different widths (indices 4 and 5), changed back and forth with a line being edited, the cursor
+    # at the end / inside / at the start; and prompts of the same width and different byte lengths
+    for start_, seq_ in ((4, (5, 4)), (5, (4, 5)), (1, (4, 1)), (4, (1, 5)), (2, (3, 2))):
+        for line_ in ("736574", "6c6564206f6e", "", "c3a9cebb"):
+            for lefts_ in (0, 1, 9):
+                ses.append("16 32 %d raw %s%s;p:%d;b:78;p:%d;b:08;w:s6f;b:0d" % (start_, ("b:" + line_ + ";") if line_ else "", ";".join(["b:1b5b44"] * lefts_) or "b:1b5b43", seq_[0], seq_[1]))
     ses += [with_short_writes(rng, gen.rand_session_w1(rng, 25)) for _ in range(n // 8)]        # a sink that takes a few bytes per write call
     ses = list(dict.fromkeys(ses))
     try:
@@ -1620,6 +1664,11 @@ def c09(ck):
                 lines += declgen.signed_boundary_lines(rng, c_)   # integer positionals at and beyond both ends of their range (after `--`)
                 lines += declgen.value_edge_lines(rng, c_)        # every value-taking argument with the edge values of its type
                 lines += declgen.double_dash_lines(rng, c_)       # more than one `--` on the line
+                if c_["args"]:
+                    # an undeclared short / long option and an extra argument made of a scalar at a boundary of the encoded length
+                    # (what the error line prints back is encoded by the library itself)
+                    ch_ = chr(rng.choice([0x7F + 1, 0x7FF, 0x800, 0xFFFF, 0x10000, 0x10001, 0xFFFFF, 0x100000, 0x10FFFF]))
+                    lines += [declgen.q(declgen.cmd_name(c_)) + " -" + ch_, declgen.q(declgen.cmd_name(c_)) + " --" + ch_ + ch_]
         for i in range(0, len(lines), 8):
             cases.append(lines_to_session(k, lines[i:i + 8], cap=120))
         # the second time: the same line again right away, after a rejected line, after a help request
